@@ -70,6 +70,11 @@ class HllC09(W.WirePart):
                             "stream reader consumed %s bytes of the image" % pos.split(":")[-1], i))
             if ck.get("deser") != "ok":
                 bad.append(("hll/%s/restored-content-differs" % tag, "deser=%s" % ck.get("deser"), i))
+            un = ck.get("unal", "ok")
+            if un != "ok":
+                from .c11_hll import norm_outcome
+                bad.append(("hll/bytes/unaligned-buffer/%s" % norm_outcome(un),
+                            "deserialize(bytes + h) of a valid %s image behind a 1- or 13-byte header: %s" % (tag, un), i))
             if ck.get("api") != "ok":
                 bad.append(("hll/%s/restored-estimates-differ" % tag, "api=%s" % ck.get("api"), i))
             for key, path in (("reser", "bytes"), ("resers", "stream")):
